@@ -302,3 +302,16 @@ mod tests {
     
     
 }
+
+
+/// verification only: access to the streams bookkeeping of this channel
+#[cfg(feature = "verif")]
+impl<'a, ItemType:          Debug + Send + Sync,
+         OgreAllocatorType: BoundedOgreAllocator<ItemType> + 'a + Send + Sync,
+         const BUFFER_SIZE: usize,
+         const MAX_STREAMS: usize>
+Atomic<'a, ItemType, OgreAllocatorType, BUFFER_SIZE, MAX_STREAMS> {
+    pub fn verif_streams_manager(&self) -> &StreamsManagerBase<MAX_STREAMS> {
+        &self.streams_manager
+    }
+}
